@@ -120,7 +120,7 @@ class C04(Sim):
     RULE = ("one run = a pool of 1-3 meshes and one simulated file system; saver / loader / cross-reader / cross-writer / querier / config clients under a "
             "seeded scheduler; distinct = distinct (mesh kinds, (operation, format, switches) sequence); non-trivial = >= 1 file saved or planted and >= 1 load or cross-read judged")
     FAULT_KINDS = ["lexical", "config_flip", "reject"]
-    PROBES = ["custom_default_attribute", "float32_coordinates", "dialect_ascii", "dialect_multi_solid", "dialect_interleave", "dialect_relative_indices", "dialect_polylines", "dialect_count_same_line", "dialect_counts_on_header_line", "dialect_face_style", "dialect_vextra", "dialect_ref", "dialect_version", "dialect_nedges", "dialect_normals", "dialect_header", "edge_unmarked", "edited_then_saved", "wild_coordinates", "polygon_to_triangle_format", "attributes_roundtrip", "query_before_save", "resave_after_load", "stl", "hex", "export_edges_off",
+    PROBES = ["raw_data_extended", "dialect_face_colours", "custom_default_attribute", "float32_coordinates", "dialect_ascii", "dialect_multi_solid", "dialect_interleave", "dialect_relative_indices", "dialect_polylines", "dialect_count_same_line", "dialect_counts_on_header_line", "dialect_face_style", "dialect_vextra", "dialect_ref", "dialect_version", "dialect_nedges", "dialect_normals", "dialect_header", "edge_unmarked", "edited_then_saved", "wild_coordinates", "polygon_to_triangle_format", "attributes_roundtrip", "query_before_save", "resave_after_load", "stl", "hex", "export_edges_off",
               "crlf", "comments", "exp_floats", "no_final_newline", "cross_read", "cross_write_load", "save_load", "overwrite", "faceless_stl", "ignore_elements", "raw_load"]
     QUICK_RUNS = 2500
     THOROUGH_RUNS = 250000
@@ -341,6 +341,11 @@ class C04(Sim):
             if r.chance(0.12):
                 ev["ignore"] = r.subset(["edges", "faces", "cells"], 0.5, at_least=1)
             return ev
+        if c == "loader" and r.chance(0.08):
+            # the raw data of a surface file is loaded, ONE MORE FACE is appended to it, and the mesh is built from that (then kept: it will be saved)
+            cands = sorted(p_ for p_, f_ in self.files.items() if f_["fmt"] in ("obj", "off", "geogram_ascii") and f_["expressed"]["faces"] and not f_["expressed"]["cells"])
+            if cands:
+                return {"c": c, "op": "raw_extend", "path": r.choice(cands)}
         if c == "loader":
             return {"c": c, "op": "load", "path": r.choice(sorted(self.files)), "keep": r.chance(0.3), "raw": r.chance(0.2)}
         if c == "xreader":
@@ -378,6 +383,8 @@ class C04(Sim):
                 dia["nedges"] = r.randint(1, 40)
             if r.chance(0.25):
                 dia["counts_on_header_line"] = True       # `OFF 8 6 12`
+            if r.chance(0.25):
+                dia["face_colours"] = True                # `3 i j k r g b`: a colour after the indices of a face record
         elif fmt == "stl":
             if r.chance(0.3):
                 dia["normals"] = "zero"
@@ -412,6 +419,9 @@ class C04(Sim):
             if ev["path"] in self.files and (op == "plant" or self.files[ev["path"]]["fmt"] != ev["fmt"]):
                 return False
             return self._fmt_ok(self.snapshot(self._mesh(ev["m"])), ev["fmt"])
+        if op == "raw_extend":
+            f_ = self.files.get(ev["path"])
+            return f_ is not None and f_["fmt"] in ("obj", "off", "geogram_ascii") and bool(f_["expressed"]["faces"]) and not f_["expressed"]["cells"] and len(self.loaded) < 3
         if op in ("load", "xread"):
             if ev["path"] not in self.files:
                 return False
@@ -540,6 +550,22 @@ class C04(Sim):
             else:
                 return "n/a"
             return o.brief()  # state perturber only (adds attributes to the mesh); never judged here
+        if op == "raw_extend":
+            info = self.files[ev["path"]]
+
+            def build():
+                raw = M.mesh.load(self.fs.root + ev["path"], raw=True)
+                f0 = [int(x) for x in raw.faces[0]]
+                raw.faces.append(f0[:3][::-1])  # a triangle on three vertices of the first face (other winding)
+                return M.mesh.SurfaceMesh(raw)
+            o = call(build)
+            if not o.ok or o.value is None:
+                return "raw-extend-failed:" + o.brief()  # (what the file holds is judged by the load / xread of that file, not here)
+            self.loaded.append(o.value)
+            self.loaded_fmt.append("geogram_ascii")  # steer the next save of it to the format that writes corners from the corner container
+            self._just_edited = len(self.meshes) + len(self.loaded) - 1
+            self.probes["raw_data_extended"] += 1
+            return "extended"
         if op == "edit":
             m = self._mesh(ev["m"])
 
@@ -644,10 +670,19 @@ class C04(Sim):
             dia = dict(ev.get("dialect") or {})
             vextra = dia.pop("vextra", None)
             multi = dia.pop("multi_solid", None)
+            fcol = dia.pop("face_colours", None)
             data = RC.write(fmt, ex, seed=ev["pseed"], **ev["opts"], **dia)
             if vextra:
                 import re
                 data = re.sub(rb"(?m)^(v[ \t]+\S+[ \t]+\S+[ \t]+\S+)", rb"\1 0.5 0.25 1" if vextra == "rgb" else rb"\1 1.0", data)
+            if fcol:
+                def colour(line):
+                    body = line.split(b"#", 1)[0]
+                    t = body.split()
+                    if len(t) >= 4 and all(x.isdigit() for x in t) and int(t[0]) == len(t) - 1 and int(t[0]) >= 3:
+                        return body.rstrip() + b" 255 128 0" + line[len(body.rstrip()):]
+                    return line
+                data = b"".join(colour(l) for l in data.splitlines(keepends=True))
             if multi and data.count(b"endfacet") >= 2:
                 # close the solid after the first half of the facets and open a second one (many writers emit one solid per part)
                 parts = data.split(b"endfacet")
@@ -658,7 +693,14 @@ class C04(Sim):
                 self.probes["dialect_" + k_] += 1
             self.fs.files[self.fs.root + ev["path"]] = data
             self.nfile += 1
-            self.files[ev["path"]] = {"fmt": fmt, "snap": snap, "expressed": RC.core(RC.read(fmt, data)) if fmt != "stl" else ex, "origin": "plant", "kinds": self._kinds(snap)}
+            try:
+                told = RC.core(RC.read(fmt, data)) if fmt != "stl" else ex
+            except RC.FormatError as e_:
+                # the pooled mesh itself is not a mesh any more (e.g. it came out of an earlier faulty load: element indices out of range), so
+                # the independent writer cannot express it: nothing is planted; the fault is reported where it arose (load / cross-read)
+                self.fs.files.pop(self.fs.root + ev["path"], None)
+                return "unplantable: %s" % (str(e_)[:80],)
+            self.files[ev["path"]] = {"fmt": fmt, "snap": snap, "expressed": told, "origin": "plant", "kinds": self._kinds(snap)}
             for p in ev["opts"]:
                 self.probes[p] += 1
             if ev["opts"]:
